@@ -40,7 +40,14 @@ func (e *QuestionMarkExpr) Evaluate(engine *Engine, input interface{}, args []*S
 	}
 
 	if in.Kind() == reflect.Slice {
-		value := reflect.Zero(TypeOfSliceElement(input)).Interface()
+		// A list of anything ([]interface{}) does not say what its elements
+		// are. Treat it like a missing value.
+		elementType := TypeOfSliceElement(input)
+		if elementType == nil {
+			return e.Evaluate(engine, nil, nil)
+		}
+
+		value := reflect.Zero(elementType).Interface()
 
 		return e.Evaluate(engine, value, nil)
 	}
